@@ -105,6 +105,12 @@ func (r *run) interruptions(pre *memory.Database, ev event, pend, samp, k, head 
 			if deep {
 				r.compareTwin(B, k, "in-process-after-"+mode, false)
 			}
+			// graceful stop mid-prune (context cancelled), then a restart: the floor is re-seeded from the
+			// database; the property is evaluated for THAT floor (oldest retained block)
+			if mode == "cancel" && deep {
+				eo, _ := pruner.OldestRetainedBlock(px)
+				r.compareTwin(openNode(px, sc.NewState, true), eo, "cancel-restart", false)
+			}
 			// restart on the crash image
 			if mode == "crash" && px.image != nil {
 				r.or.Ask("load "+saveID, 1)
@@ -142,6 +148,9 @@ func (r *run) revertAndExtend() {
 	if n > 6 && low < n-6 && r.e == 0 {
 		low = n - 6
 	}
+	if r.revertLow > low {
+		low = r.revertLow
+	}
 	h := n - 1
 	for h > low {
 		ea, eb := r.A.BC.RevertHead(), r.B.BC.RevertHead()
@@ -157,6 +166,8 @@ func (r *run) revertAndExtend() {
 		h--
 	}
 	r.c.Hist[fmt.Sprintf("reverted-to-floor:%v", h == r.e)]++
+	floorSave := r.e
+	_ = floorSave
 	r.compareTwin(r.B, r.e, "reverted", true)
 	r.compareModelStore(r.px, h, "reverted")
 	for i := h + 1; i < n; i++ {
